@@ -68,7 +68,7 @@ def norm(r):
 def run(ctx, res):
     res.rule = ('user tables of 0-5 identities drawn from idents with quotes, SQL, LIKE wildcards, separators, path characters, '
                 'case variants, non-ASCII case pairs (ß/ss) and channel lists incl. empty and missing ones, through the five REAL '
-                'stores (sqlite file, JSON file, process environment, dict, stacked in random orders); lookups = configured idents + '
+                'stores (sqlite file, JSON file, process environment, dict, stacked in random orders; JSON user files that held another table before and were reloaded); lookups = configured idents + '
                 'case/prefix/suffix/wildcard variants + unconfigured strings; each answer compared with the Coq model and with the '
                 'configuration itself; non-trivial = a store with at least one identity; distinct by (store kind, table, lookups)')
     cases = []
@@ -79,6 +79,7 @@ def run(ctx, res):
         kind = rng.choice(['memory', 'sqlite', 'json', 'env', 'multi', 'multi'])
         sp = os.path.join(ctx.workdir, 'db%d.sqlite' % k)
         jp = os.path.join(ctx.workdir, 'u%d.json' % k)
+        befores = {}
         if kind == 'memory':
             users2 = dict(users)
             if rng.random() < 0.3:
@@ -89,7 +90,13 @@ def run(ctx, res):
             b = stores.build_sqlite(users, sp)
             members = [('sqlite', users, b)]
         elif kind == 'json':
-            b = stores.build_json(users, jp)
+            before = None
+            if rng.random() < 0.5:
+                # the user file held another table before and was reloaded: removed identities must be gone
+                before = gen_users(rng, rng.randint(1, 4))
+                lookups = lookups + [x for x in before if x not in lookups]
+            befores['0'] = before
+            b = stores.build_json(users, jp, before)
             members = [('json', users, b)]
         elif kind == 'env':
             b = stores.build_env(users, lookups)
@@ -107,7 +114,12 @@ def run(ctx, res):
                 elif mk == 'sqlite':
                     mb = stores.build_sqlite(mu, sp + str(j))
                 elif mk == 'json':
-                    mb = stores.build_json(mu, jp + str(j))
+                    before = None
+                    if rng.random() < 0.4:
+                        before = gen_users(rng, rng.randint(1, 3))
+                        lookups = lookups + [x for x in before if x not in lookups]
+                    befores[str(j)] = before
+                    mb = stores.build_json(mu, jp + str(j), before)
                 else:
                     mb = stores.build_env(mu, lookups)
                 members.append((mk, mu, mb))
@@ -140,7 +152,7 @@ def run(ctx, res):
         res.count('store:' + kind)
         res.count('lookups', len(lookups))
         res.count('hits', sum(1 for r in raw if r))
-        cases.append(dict(input=dict(kind=kind, members=[(mk, mu) for mk, mu, _ in members], lookups=lookups),
+        cases.append(dict(input=dict(kind=kind, members=[(mk, mu) for mk, mu, _ in members], lookups=lookups, befores=befores),
                           expr='run_store (%s) [%s]' % (b.coq, '; '.join(common.coq_bytes(stores.u8(i)) for i in lookups)),
                           impl=fps, oracle=orc, fsig=('C17: %s store answers differently from its configuration' % kind) if orc else None,
                           sig=json.dumps([kind, [(mk, sorted(mu)) for mk, mu, _ in members], lookups]) if any(mu for _, mu, _ in members) else None))
@@ -160,7 +172,7 @@ def replay(ctx, case):
         elif mk == 'sqlite':
             built.append((mk, mu, stores.build_sqlite(mu, os.path.join(ctx.workdir, 'r%d.sqlite' % j))))
         elif mk == 'json':
-            built.append((mk, mu, stores.build_json(mu, os.path.join(ctx.workdir, 'r%d.json' % j))))
+            built.append((mk, mu, stores.build_json(mu, os.path.join(ctx.workdir, 'r%d.json' % j), (case.get('befores') or {}).get(str(j)))))
         else:
             built.append((mk, mu, stores.build_env(mu, lookups)))
     b = built[0][2] if kind != 'multi' else stores.build_multi([x for _, _, x in built])
